@@ -199,6 +199,18 @@ CLAIMED = {
         "technique": "Lean 4 proof (decode o encode = id over an abstract XML tree, partial) + generated-file correspondence + fault enumeration",
         "design_ref": "DESIGN.md §6 C15",
     },
+    "C16": {
+        "text": "Lean 4 theorems (Props/C16.lean) over an abstract workbook of typed cells: whole numbers render as the integer's decimal text, booleans as 1/0, strings "
+                "verbatim, pure times as hh:mm:ss of fixed shape, the sheet read is the requested one with rows as wide as the sheet (C16_sheet, C16_padding), "
+                "a sheet outside the workbook is a data-format error; xlrd's serial-to-date arithmetic is checked on sampled dates by kernel evaluation. "
+                "Correspondence: workbooks written with xlsxwriter (all cell kinds, integers to 2^53, floats, dates over 1900-03-01..9999-12-31 incl. month ends, "
+                "seconds of a day, 1-3 sheets x Sheet 1-4) read by the real code, compared with the documented rendering computed from the values and with the model; "
+                "XlsxRowWriter round trip; truncated workbooks.",
+        "note": "Partial: float shortest-repr, xlrd/xlsxwriter byte formats and cell typing are parameters of the model; the date arithmetic is proved only on samples "
+                "(a general proof was attempted with omega and does not go through), the whole range is sampled by the correspondence.",
+        "technique": "Lean 4 proof over abstract typed cells (partial) + generated-workbook correspondence",
+        "design_ref": "DESIGN.md §6 C16",
+    },
 }
 
 NOT_YET = {
